@@ -1,6 +1,12 @@
 package main
 
-import "go/types"
+import (
+	"fmt"
+	"go/token"
+	"go/types"
+
+	"golang.org/x/tools/go/ssa"
+)
 
 var c17Pure = []string{"sortints.Union", "sortints.Intersection", "sortints.IntersectionSize", "sortints.SetMinus", "sortints.XOR",
 	"sortints.Complement", "sortints.ContainsSingle", "sortints.ContainsSorted", "sortints.Range", "sortints.NewSortedInts"}
@@ -30,8 +36,8 @@ func swapControls(ctl *Ctx) []*RuleResult {
 func init() {
 	register(&propDef{
 		id:          "C17",
-		explanation: "Decides the 'who may write what' sentence and one clause of 'ints.Sort orders like the standard library': PURE (the ten non-mutating sortints functions write nothing reachable from any argument, package-level or captured state), FRESH (the slice they return shares no memory with an argument, so mutating the result later cannot change an argument), RECEIVER-ONLY (Add, Remove and the Union method write only memory rooted at their receiver, never the variadic x or b), both from E-EFF write summaries; SWAP (ints.Sort and all its helpers only permute cells of their slice, so the output is a rearrangement of the input). It does not decide that results are the right sets or that Sort orders.",
-		notDecided:  []string{"that each function returns the mathematically correct set / boolean / size (e.g. Add with a repeated, already-present argument; Range with negative step)", "that ints.Sort puts the elements in ascending order"},
+		explanation: "Decides the 'who may write what' sentence and one clause of 'ints.Sort orders like the standard library': PURE (the ten non-mutating sortints functions write nothing reachable from any argument, package-level or captured state), FRESH (the slice they return shares no memory with an argument, so mutating the result later cannot change an argument), RECEIVER-ONLY (Add, Remove and the Union method write only memory rooted at their receiver, never the variadic x or b), both from E-EFF write summaries; SWAP (ints.Sort and all its helpers only permute cells of their slice, so the output is a rearrangement of the input); MARKCOUNT (where Add marks cells of its scratch slice with a sentinel and counts them at more than one place, each place knows the cell is not marked yet, so the count equals the number of marks). It does not decide that results are the right sets or that Sort orders.",
+		notDecided:  []string{"that each function returns the mathematically correct set / boolean / size (e.g. Range with negative step)", "that ints.Sort puts the elements in ascending order"},
 		assumptions: []string{"append into spare capacity of an argument counts as a write to that argument (it is visible to other slices sharing the array)"},
 		run: func(c *Ctx, tier string) []*RuleResult {
 			pure := &RuleResult{Rule: "PURE", Doc: "non-mutating sortints functions write nothing reachable from their arguments", MinInst: len(c17Pure)}
@@ -46,7 +52,9 @@ func init() {
 			for _, n := range []string{"sortints.Union", "sortints.Intersection", "sortints.SetMinus", "sortints.XOR", "sortints.Complement", "sortints.Range", "sortints.NewSortedInts"} {
 				freshResult(c, fr, c.Fn(n), 0, nil, nil, "is a new slice")
 			}
-			return []*RuleResult{pure, ro, fr, ruleSwap(c, "SWAP", swapDoc, c17Swap, 10)}
+			mc := &RuleResult{Rule: "MARKCOUNT", Doc: "where cells of a scratch slice are marked with a sentinel and counted at several places, each place knows the cell is not marked yet (the count equals the number of marks)", MinInst: 1}
+			ruleMarkCount(c, mc, "sortints")
+			return []*RuleResult{pure, ro, fr, ruleSwap(c, "SWAP", swapDoc, c17Swap, 10), mc}
 		},
 		controls: func(ctl *Ctx) []*RuleResult {
 			pure := &RuleResult{Rule: "PURE"}
@@ -59,7 +67,9 @@ func init() {
 			fr := &RuleResult{Rule: "FRESH"}
 			freshResult(ctl, fr, ctl.Fn("effctl.BadFreshAlias"), 0, nil, nil, "is a new slice")
 			freshResult(ctl, fr, ctl.Fn("effctl.GoodPure"), 0, nil, nil, "is a new slice")
-			return append([]*RuleResult{pure, ro, fr}, swapControls(ctl)...)
+			mc := &RuleResult{Rule: "MARKCOUNT"}
+			ruleMarkCount(ctl, mc, "markctl")
+			return append([]*RuleResult{pure, ro, fr, mc}, swapControls(ctl)...)
 		},
 	})
 	register(&propDef{
@@ -96,4 +106,224 @@ func init() {
 		},
 		controls: func(ctl *Ctx) []*RuleResult { return swapControls(ctl) },
 	})
+}
+
+// ruleMarkCount: a function that flags cells of a scratch slice with a sentinel constant and keeps a
+// count of the flagged cells in step (mark and bump in the same basic block) at more than one place
+// must, at every such place, know that the cell is not flagged yet - otherwise the count runs
+// ahead of the marks and whatever is sized from it is too short. "Not flagged yet" is established
+// by a dominating test of that cell against the sentinel, or because the place is the slice's
+// first sweep (every earlier store into the slice is in the same loop at the same unit-step index).
+func ruleMarkCount(c *Ctx, r *RuleResult, pkgRel string) {
+	pkg := c.Pkg(pkgRel)
+	type site struct {
+		st   *ssa.Store
+		ia   *ssa.IndexAddr
+		incs []*ssa.BinOp
+	}
+	nfn := 0
+	for _, fn := range c.Funcs {
+		if fn.Synthetic != "" || fn.Blocks == nil || fnPkg(fn) == nil || fnPkg(fn).Pkg != pkg.Types {
+			continue
+		}
+		nfn++
+		// candidate sites grouped by (slice value, sentinel)
+		groups := map[string][]site{}
+		for _, b := range fn.Blocks {
+			var incs []*ssa.BinOp
+			for _, in := range b.Instrs {
+				if bo, ok := in.(*ssa.BinOp); ok && bo.Op == token.ADD && isInt(bo.Type()) {
+					if one, isK := constInt(bo.Y); isK && one == 1 {
+						// loop-carried: feeds a phi
+						if refs := bo.Referrers(); refs != nil {
+							for _, ref := range *refs {
+								if _, isPhi := ref.(*ssa.Phi); isPhi {
+									incs = append(incs, bo)
+									break
+								}
+							}
+						}
+					}
+				}
+			}
+			if len(incs) == 0 {
+				continue
+			}
+			for _, in := range b.Instrs {
+				st, ok := in.(*ssa.Store)
+				if !ok {
+					continue
+				}
+				ia, ok := st.Addr.(*ssa.IndexAddr)
+				if !ok {
+					continue
+				}
+				k, isK := constInt(st.Val)
+				if !isK {
+					continue
+				}
+				if _, isMk := stripAll(ia.X).(*ssa.MakeSlice); !isMk {
+					continue
+				}
+				key := fmt.Sprintf("%p/%d", stripAll(ia.X), k)
+				groups[key] = append(groups[key], site{st, ia, incs})
+			}
+		}
+		var P *Prover
+		var loops map[*ssa.BasicBlock]map[*ssa.BasicBlock]bool
+		for _, sites := range groups {
+			if len(sites) < 2 {
+				continue
+			}
+			// the sites must bump a common counter: the phi webs of their increments meet
+			web := func(bo *ssa.BinOp) map[ssa.Value]bool {
+				out := map[ssa.Value]bool{}
+				var walk func(v ssa.Value, d int)
+				walk = func(v ssa.Value, d int) {
+					if out[v] || d > 12 {
+						return
+					}
+					out[v] = true
+					switch x := v.(type) {
+					case *ssa.Phi:
+						for _, e := range x.Edges {
+							walk(e, d+1)
+						}
+					case *ssa.BinOp:
+						if x.Op == token.ADD {
+							walk(x.X, d+1)
+						}
+					}
+				}
+				walk(bo, 0)
+				return out
+			}
+			common := false
+			w0 := map[ssa.Value]bool{}
+			for _, bo := range sites[0].incs {
+				for v := range web(bo) {
+					w0[v] = true
+				}
+			}
+			for _, s2 := range sites[1:] {
+				for _, bo := range s2.incs {
+					for v := range web(bo) {
+						if _, isPhi := v.(*ssa.Phi); isPhi && w0[v] {
+							common = true
+						}
+					}
+				}
+			}
+			if !common {
+				continue
+			}
+			if P == nil {
+				P = NewProver(c, fn)
+				loops = loopsOf(fn)
+			}
+			A := stripAll(sites[0].ia.X)
+			K, _ := constInt(sites[0].st.Val)
+			where := map[ssa.Instruction]ipos{}
+			var stores []*ssa.Store
+			for _, b := range fn.Blocks {
+				for i, in := range b.Instrs {
+					where[in] = ipos{b, i}
+					if st, ok := in.(*ssa.Store); ok {
+						if ia, ok := st.Addr.(*ssa.IndexAddr); ok && stripAll(ia.X) == A {
+							stores = append(stores, st)
+						}
+					}
+				}
+			}
+			for _, s := range sites {
+				src := c.srcAt(s.ia.Pos())
+				if src == "" {
+					src = valName(s.ia)
+				}
+				r.inst("%s: %s = %d counted", c.short(fn), src, K)
+				e := P.poly(s.ia.Index)
+				blk := s.st.Block()
+				// (a) a dominating test of this cell against the sentinel
+				guarded := false
+				for x := blk; x != nil && !guarded; x = x.Idom() {
+					if len(x.Preds) != 1 {
+						continue
+					}
+					p := x.Preds[0]
+					iff, isIf := p.Instrs[len(p.Instrs)-1].(*ssa.If)
+					if !isIf {
+						continue
+					}
+					bo, isBo := iff.Cond.(*ssa.BinOp)
+					if !isBo {
+						continue
+					}
+					onTrue := p.Succs[0] == x
+					if !((bo.Op == token.NEQ && onTrue) || (bo.Op == token.EQL && !onTrue)) {
+						continue
+					}
+					if k2, isK := constInt(bo.Y); !isK || k2 != K {
+						continue
+					}
+					ld, isLd := bo.X.(*ssa.UnOp)
+					if !isLd || ld.Op != token.MUL {
+						continue
+					}
+					la, isIA := ld.X.(*ssa.IndexAddr)
+					if !isIA || stripAll(la.X) != A || P.poly(la.Index).add(e, -1).key() != "" {
+						continue
+					}
+					// no store into the slice between the test and the mark
+					clean := true
+					for _, t := range stores {
+						if t != s.st && reaches(where[ld], where[t], where[s.st]) && reaches(where[t], where[s.st], where[ld]) {
+							clean = false
+						}
+					}
+					guarded = clean
+				}
+				// (b) the first sweep over the slice
+				first := false
+				if !guarded {
+					var L map[*ssa.BasicBlock]bool
+					for _, body := range loops {
+						if body[blk] && (L == nil || len(body) < len(L)) {
+							L = body
+						}
+					}
+					if why, ok := tSweep(P, loops, s.ia.Index, blk); ok || why != "" || true {
+						_ = why
+						idxPhi, isPhi := strip(s.ia.Index).(*ssa.Phi)
+						sweep := false
+						if isPhi {
+							if li, ok := unitCounter(P, loops, idxPhi); ok && L != nil && li.body[blk] {
+								sweep = true
+							}
+						}
+						if sweep {
+							first = true
+							for _, t := range stores {
+								if t == s.st {
+									continue
+								}
+								if !reaches(where[t], where[s.st], ipos{nil, -1}) {
+									continue
+								}
+								ta := t.Addr.(*ssa.IndexAddr)
+								if !L[t.Block()] || P.poly(ta.Index).add(e, -1).key() != "" {
+									first = false
+								}
+							}
+						}
+					}
+				}
+				ok := guarded || first
+				r.oblig(ok)
+				if !ok {
+					r.find(c.short(fn)+":count bumped for a cell that may already be marked:"+src, c.instrPos(s.st), "%s marks %s with %d and bumps the running count in the same step, as it does at %d other place(s), without knowing that the cell is not marked already (no dominating test of the cell against %d, and not the first sweep over the slice): an element marked twice is counted twice and everything sized from the count is too short", c.short(fn), src, K, len(sites)-1, K)
+				}
+			}
+		}
+	}
+	r.inst("%d functions of %s scanned for mark-and-count sites", nfn, pkgRel)
 }
